@@ -355,3 +355,258 @@ Proof.
   pose proof (read_file_total pol b) as T.
   destruct (fst (read_file_bytes pol b)); simpl in *; auto.
 Qed.
+
+(* ---- allocation requests are in proportion to the file ----------------------------------------------------- *)
+
+Definition is_bytes (l : list N) : Prop := Forall (fun x => x < 256) l.
+Definition allocs_ok (n : N) (log : list alloc) : Prop := Forall (fun a => alloc_ok n a = true) log.
+
+Lemma is_bytes_firstn k : forall l, is_bytes l -> is_bytes (firstn k l).
+Proof.
+  induction k as [|k IH]; intros l H; [rewrite firstn_O; constructor|].
+  destruct l; [rewrite firstn_nil; constructor|]. rewrite firstn_cons.
+  inversion H; subst. constructor; auto. apply IH; assumption.
+Qed.
+
+Lemma is_bytes_skipn k : forall l, is_bytes l -> is_bytes (skipn k l).
+Proof.
+  induction k as [|k IH]; intros l H; [rewrite skipn_O; assumption|].
+  destruct l; [rewrite skipn_nil; constructor|]. rewrite skipn_cons.
+  inversion H; subst. apply IH; assumption.
+Qed.
+
+Lemma le_bound s : is_bytes s -> le s < 256 ^ lenN s.
+Proof.
+  induction s as [|b t IH]; intros H; [simpl; lia|].
+  inversion H; subst. specialize (IH H3). rewrite lenN_cons.
+  replace (1 + lenN t) with (N.succ (lenN t)) by lia. rewrite N.pow_succ_r'.
+  cbn [le]. lia.
+Qed.
+
+Lemma rd_bound l lo hi v : is_bytes l -> rd l lo hi = Ok v -> v < 256 ^ (hi - lo).
+Proof.
+  intros B. unfold rd, slice, sub.
+  destruct ((lo <=? hi) && (hi <=? lenN l)) eqn:C; [|discriminate].
+  apply andb_true_iff in C as [C1 C2]. apply N.leb_le in C1. apply N.leb_le in C2.
+  cbn [bind]. intros E; inversion E; subst.
+  rewrite <- (proj2 (sub_some l lo hi C1 C2)) at 2.
+  apply le_bound, is_bytes_firstn, is_bytes_skipn, B.
+Qed.
+
+Lemma slice_bytes l lo hi s : is_bytes l -> slice l lo hi = Ok s -> is_bytes s.
+Proof.
+  intros B. unfold slice, sub. destruct ((lo <=? hi) && (hi <=? lenN l)); [|discriminate].
+  intros E; inversion E; subst. apply is_bytes_firstn, is_bytes_skipn, B.
+Qed.
+
+Lemma fhdr_namelen_bound buf h : is_bytes buf -> fhdr_deserialize buf = Ok h -> fh_namelen h <= 65535.
+Proof.
+  intros B. unfold fhdr_deserialize.
+  destruct (lenN buf <? file_header_size); [discriminate|].
+  destruct (slice buf 0 4); cbn [bind]; try discriminate.
+  destruct (negb (bytes_eqb a magic_bytes)); [discriminate|].
+  destruct (rd buf 4 6) as [v| | |]; cbn [bind]; try discriminate.
+  destruct (negb (v =? version2) && negb (v =? version3)); [discriminate|].
+  destruct (rd buf 44 46) as [nl| | |] eqn:E; cbn [bind]; try discriminate.
+  intros X; inversion X; subst. cbn [fh_namelen].
+  apply rd_bound in E; [|assumption]. change (256 ^ (46 - 44)) with 65536 in E.
+  destruct (v =? version3); lia.
+Qed.
+
+Lemma bhdr_count_bound buf h : is_bytes buf -> bhdr_deserialize buf = Ok h -> bh_count h <= 65535.
+Proof.
+  intros B. unfold bhdr_deserialize.
+  destruct (lenN buf <? block_header_size); [discriminate|].
+  destruct (rd buf 0 4); cbn [bind]; try discriminate.
+  destruct (rd buf 4 8); cbn [bind]; try discriminate.
+  destruct (rd buf 8 10) as [c| | |] eqn:E; cbn [bind]; try discriminate.
+  destruct (rd buf 10 14); cbn [bind]; try discriminate.
+  intros X; inversion X; subst. cbn [bh_count].
+  apply rd_bound in E; [|assumption]. change (256 ^ (10 - 8)) with 65536 in E. lia.
+Qed.
+
+Lemma alloc_ok_buf_small n k : k <= 65535 -> alloc_ok n (ABuf k) = true.
+Proof. intros. cbn [alloc_ok]. apply orb_true_iff. left. apply N.leb_le. assumption. Qed.
+
+Lemma alloc_ok_buf_lin n k : k <= 22 * n -> alloc_ok n (ABuf k) = true.
+Proof. intros. cbn [alloc_ok]. apply orb_true_iff. right. apply N.leb_le. assumption. Qed.
+
+Lemma alloc_ok_entries n k : k <= 65535 -> alloc_ok n (AEntries k) = true.
+Proof. intros. cbn [alloc_ok]. apply N.leb_le. assumption. Qed.
+
+Lemma alloc_ok_mono n m a : n <= m -> alloc_ok n a = true -> alloc_ok m a = true.
+Proof.
+  intros H. destruct a; cbn [alloc_ok]; [|auto]. unfold max_snappy_expansion.
+  rewrite !orb_true_iff, !N.leb_le. lia.
+Qed.
+
+Lemma allocs_ok_mono n m log : n <= m -> allocs_ok n log -> allocs_ok m log.
+Proof. intros H. apply Forall_impl. intros a. apply alloc_ok_mono, H. Qed.
+
+Lemma entry_allocs_ok n m es : m <= 22 * n -> Forall (entry_fits m) es -> allocs_ok n (entry_allocs es).
+Proof.
+  intros H F. unfold entry_allocs, allocs_ok. induction F as [|e es (F1 & F2 & _) _ IH]; simpl; [constructor|].
+  constructor; [apply alloc_ok_buf_lin; lia|]. constructor; [apply alloc_ok_buf_lin; lia|]. exact IH.
+Qed.
+
+Lemma entry_fits_mono n m e : n <= m -> entry_fits n e -> entry_fits m e.
+Proof. unfold entry_fits. intros H (A & B & C). repeat split; try lia; assumption. Qed.
+
+Lemma parse_block_allocs pol h comp n :
+  p_sn_bound pol = true -> bh_count h <= 65535 -> lenN comp <= n ->
+  allocs_ok n (snd (parse_block pol h comp)) /\
+  (forall es, fst (parse_block pol h comp) = Ok es -> Forall (entry_fits (22 * n)) es).
+Proof.
+  intros Hsn Hc Hn. unfold parse_block. rewrite Hsn. cbn [andb].
+  destruct (negb (crc32 comp =? bh_crc h)); [split; [constructor|discriminate]|].
+  destruct (sn_decoded_len comp) as [[dl body]|]; [|split; [constructor|discriminate]].
+  destruct (negb (dl =? bh_usize h) || (max_snappy_expansion * lenN comp <? dl)) eqn:C;
+    [split; [constructor|discriminate]|].
+  apply orb_false_iff in C as [C1 C2]. apply negb_false_iff, N.eqb_eq in C1.
+  apply N.ltb_ge in C2. unfold max_snappy_expansion in C2.
+  assert (A1 : alloc_ok n (ABuf dl) = true) by (apply alloc_ok_buf_lin; lia).
+  destruct (snappy_decode comp) as [unc| | |]; cbn [sn_to_res fst snd];
+    try (split; [repeat constructor; assumption|discriminate]).
+  destruct (negb (lenN unc =? bh_usize h)) eqn:C3; [split; [repeat constructor; assumption|discriminate]|].
+  apply negb_false_iff, N.eqb_eq in C3.
+  pose proof (parse_entries_spec (N.to_nat (bh_count h)) unc 0 ltac:(lia)) as S.
+  destruct (parse_entries (N.to_nat (bh_count h)) unc 0) as [es| | |]; cbn [fst snd];
+    try (split; [repeat constructor; try assumption; apply alloc_ok_entries; assumption|discriminate]).
+  destruct S as (_ & F & _). split.
+  - apply Forall_app. split; [repeat constructor; try assumption; apply alloc_ok_entries; assumption|].
+    apply entry_allocs_ok with (m := lenN unc); [lia|exact F].
+  - intros es' E; inversion E; subst.
+    eapply Forall_impl; [|exact F]. intros e. apply entry_fits_mono. lia.
+Qed.
+
+Lemma tail_class_not_block b es r : tail_class b <> StBlock es r.
+Proof. destruct b; discriminate. Qed.
+
+Lemma next_block_ne_allocs pol rest n :
+  p_bound_first pol = true -> p_sn_bound pol = true -> is_bytes rest -> lenN rest <= n ->
+  allocs_ok n (snd (next_block_ne pol rest)) /\
+  (forall es rest', fst (next_block_ne pol rest) = StBlock es rest' ->
+     Forall (entry_fits (22 * n)) es /\ exists k, rest' = skipn k rest).
+Proof.
+  intros Hb Hsn B Hn. unfold next_block_ne. cbv zeta. rewrite Hb. cbn [andb].
+  assert (A0 : alloc_ok n (ABuf block_header_size) = true) by (apply alloc_ok_buf_small; unfold block_header_size; lia).
+  destruct (lenN rest <? block_header_size) eqn:L.
+  { split; [repeat constructor; assumption|]. intros es r E. exfalso. eapply tail_class_not_block, E. }
+  apply N.ltb_ge in L. unfold block_header_size in *.
+  destruct (slice_ok rest 0 16) as (hb & E1 & Lh & _); try lia. rewrite E1. cbn [bind].
+  pose proof (slice_bytes _ _ _ _ B E1) as Bh.
+  destruct (bhdr_deserialize_ok hb) as (h & E2); [unfold block_header_size; lia|]. rewrite E2.
+  pose proof (bhdr_count_bound _ _ Bh E2) as Hc.
+  destruct (lenN rest - 16 <? bh_csize h) eqn:S.
+  { split; [repeat constructor; assumption|]. intros es r E. exfalso. eapply tail_class_not_block, E. }
+  apply N.ltb_ge in S.
+  destruct (slice_ok rest 16 (16 + bh_csize h)) as (comp & -> & Lc & _); try lia.
+  assert (A1 : alloc_ok n (ABuf (bh_csize h)) = true) by (apply alloc_ok_buf_lin; lia).
+  destruct (parse_block_allocs pol h comp n Hsn Hc ltac:(lia)) as (P1 & P2).
+  destruct (parse_block pol h comp) as [r plog]. cbn [fst snd] in *.
+  assert (allocs_ok n (([ABuf 16] ++ [ABuf (bh_csize h)]) ++ plog)) as AL.
+  { apply Forall_app. split; [repeat constructor; assumption|exact P1]. }
+  destruct r; cbn [fst snd]; (split; [exact AL|]); try discriminate.
+  intros es r E; inversion E; subst. split; [apply P2; reflexivity|eauto].
+Qed.
+
+Lemma read_blocks_allocs pol n fuel : forall rest,
+  p_bound_first pol = true -> p_sn_bound pol = true -> is_bytes rest -> lenN rest <= n ->
+  allocs_ok n (snd (read_blocks pol fuel rest)) /\
+  (forall es, fst (read_blocks pol fuel rest) = Ok es -> Forall (entry_fits (22 * n)) es).
+Proof.
+  induction fuel as [|f IH]; intros rest Hb Hsn B Hn; cbn [read_blocks].
+  { split; [constructor|discriminate]. }
+  assert (allocs_ok n (snd (next_block pol rest)) /\
+          (forall es rest', fst (next_block pol rest) = StBlock es rest' ->
+             Forall (entry_fits (22 * n)) es /\ exists k, rest' = skipn k rest)) as (A & Bk).
+  { unfold next_block. destruct rest as [|r0 rest0].
+    - split; [repeat constructor; apply alloc_ok_buf_small; unfold block_header_size; lia|discriminate].
+    - apply next_block_ne_allocs; assumption. }
+  destruct (next_block pol rest) as [st log]. cbn [fst snd] in *.
+  destruct st; cbn [fst snd]; try (split; [exact A|discriminate]).
+  - split; [exact A|]. intros es E; inversion E; constructor.
+  - destruct (Bk es rest' eq_refl) as (F & k & ->).
+    destruct (IH (skipn k rest) Hb Hsn (is_bytes_skipn k rest B)) as (A2 & F2).
+    { unfold lenN in *. rewrite skipn_length. lia. }
+    destruct (read_blocks pol f (skipn k rest)) as [r log']. cbn [fst snd] in *.
+    split; [apply Forall_app; split; assumption|].
+    destruct r; cbn [bind]; try discriminate.
+    intros es' E; inversion E; subst. apply Forall_app. split; [exact F|apply F2; reflexivity].
+Qed.
+
+Lemma load_allocs_ok n es : Forall (entry_fits (22 * n)) es -> allocs_ok n (load_allocs es).
+Proof.
+  intros F. unfold load_allocs, allocs_ok. induction F as [|e es (_ & F2 & _) _ IH]; simpl; [constructor|].
+  destruct ((e_op e =? op_insert) || (e_op e =? op_update)); simpl; [|exact IH].
+  constructor; [apply alloc_ok_buf_lin; lia|exact IH].
+Qed.
+
+Lemma is_bytes_skipN k l : is_bytes l -> is_bytes (skipN k l).
+Proof. intros B. unfold skipN. destruct (lenN l <=? k); [constructor|apply is_bytes_skipn, B]. Qed.
+
+Lemma new_file_reader_allocs b : is_bytes b -> allocs_ok (lenN b) (snd (new_file_reader b)).
+Proof.
+  intros B. unfold new_file_reader. cbv zeta.
+  assert (A0 : alloc_ok (lenN b) (ABuf file_header_size) = true) by (apply alloc_ok_buf_small; unfold file_header_size; lia).
+  destruct (lenN b <? file_header_size); [repeat constructor; assumption|].
+  destruct (slice b 0 file_header_size) as [hb| | |] eqn:E1; cbn [bind snd]; try (repeat constructor; assumption).
+  pose proof (slice_bytes _ _ _ _ B E1) as Bh.
+  destruct (fhdr_deserialize hb) as [h| | |] eqn:E2; cbn [snd]; try (repeat constructor; assumption).
+  pose proof (fhdr_namelen_bound _ _ Bh E2) as Hn.
+  assert (A1 : alloc_ok (lenN b) (ABuf (fh_namelen h)) = true) by (apply alloc_ok_buf_small; assumption).
+  destruct ((fh_version h =? version3) && (0 <? fh_namelen h)); [|repeat constructor; assumption].
+  destruct (lenN b - file_header_size <? fh_namelen h); [repeat constructor; assumption|].
+  destruct (slice b file_header_size (file_header_size + fh_namelen h)); cbn [snd]; repeat constructor; assumption.
+Qed.
+
+(* C04_alloc_bounded (repaired code): every allocation request made while loading ANY byte
+   string b is at most 65535 (range of a uint16 field) or at most 22 x |b|. *)
+Theorem read_file_alloc_bounded pol b :
+  p_bound_first pol = true -> p_sn_bound pol = true -> is_bytes b ->
+  allocs_ok (lenN b) (snd (read_file_bytes pol b)).
+Proof.
+  intros Hb Hsn B. unfold read_file_bytes, read_file_fuel.
+  pose proof (new_file_reader_allocs b B) as A0.
+  destruct (new_file_reader b) as [o log0]. cbn [snd] in A0.
+  destruct o as [op| | |]; cbn [snd]; try exact A0.
+  destruct (read_blocks_allocs pol (lenN b) (blocks_fuel b) (skipN (data_start_offset (o_hdr op)) b) Hb Hsn
+              (is_bytes_skipN _ _ B)) as (A1 & F).
+  { pose proof (skipN_length (data_start_offset (o_hdr op)) b). unfold lenN. lia. }
+  destruct (read_blocks pol (blocks_fuel b) (skipN (data_start_offset (o_hdr op)) b)) as [r log1].
+  cbn [fst snd] in *.
+  destruct r; cbn [snd]; try (apply Forall_app; split; assumption).
+  apply Forall_app; split; [assumption|]. apply Forall_app; split; [assumption|].
+  apply load_allocs_ok, F. reflexivity.
+Qed.
+
+(* the code before the two fix: commits: an 80-byte file / an 87-byte file make it request 4 GiB *)
+Definition old_policy : policy :=
+  {| p_partial_hdr_eof := true; p_nopayload_eof := true; p_shortpayload_eof := false;
+     p_bound_first := false; p_sn_bound := false |}.
+Definition fixed_policy : policy :=
+  {| p_partial_hdr_eof := true; p_nopayload_eof := true; p_shortpayload_eof := true;
+     p_bound_first := true; p_sn_bound := true |}.
+
+Definition witness_header : list N :=
+  [72;89;68;82; 3;0; 0;0] ++ repeat 0 56.
+Definition witness_forged_csize : list N :=            (* block header: CompressedSize = 0xFFFFFFF0 *)
+  witness_header ++ [240;255;255;255; 10;0;0;0; 1;0; 0;0;0;0; 0;0].
+Definition witness_forged_preamble : list N :=         (* CRC-consistent 7-byte block, snappy preamble 0xFFFFFFFF *)
+  witness_header ++ [7;0;0;0; 255;255;255;255; 1;0; 196;201;120;245; 0;0] ++ [255;255;255;255;15;0;65].
+
+Theorem alloc_unbounded_before_fix_csize :
+  lenN witness_forged_csize = 80 /\ is_bytes witness_forged_csize /\
+  read_file_bytes old_policy witness_forged_csize = (Ok ([], []), [ABuf 64; ABuf 16; ABuf 4294967280]) /\
+  snd (read_file_bytes fixed_policy witness_forged_csize) = [ABuf 64; ABuf 16].
+Proof.
+  split; [vm_compute; reflexivity|]. split; [unfold is_bytes; repeat constructor|].
+  split; vm_compute; reflexivity.
+Qed.
+
+Theorem alloc_unbounded_before_fix_preamble :
+  lenN witness_forged_preamble = 87 /\
+  read_file_bytes old_policy witness_forged_preamble =
+    (Err ECorrupt, [ABuf 64; ABuf 16; ABuf 7; ABuf 4294967295]) /\
+  read_file_bytes fixed_policy witness_forged_preamble = (Err ECorrupt, [ABuf 64; ABuf 16; ABuf 7]).
+Proof. repeat split; vm_compute; reflexivity. Qed.
